@@ -149,6 +149,13 @@ pub fn c03(ctx: &Ctx, rep: &mut Report) {
         o.nontrivial = true;
         o
     });
+    // writes of 64 KiB .. 3 MiB into a window of 4 with a reader that starts late: one frame and one unit of credit per write
+    ctx.enumerate(rep, "credit-large-writes", LARGE_WRITE_LAG_CASES, 4, large_write_lag_case, |case| {
+        let mut o = run_c03(case);
+        o.classes.push("writes-64KiB-to-3MiB-lagging-reader");
+        o.nontrivial = true;
+        o
+    });
     // ... also when the local side has megabytes ready at once (the bridge coalesces them into very large frames)
     ctx.enumerate(rep, "credit-bridged-burst", super::bridge::BURST_CASES, 2, super::bridge::burst_case, |case| {
         let mut o = run_c03(case);
@@ -350,6 +357,13 @@ pub fn c04(ctx: &Ctx, rep: &mut Report) {
     let sh = Shape { max_streams: 3, max_wops: 10, allow_empty: true, allow_drop: false, complete: true, small_windows: false, max_sched: 400 };
     ctx.prop(rep, "progress", ctx.tier.pick(50_000, 2_000_000), 200, || stream_workload(sh), run_c04a);
     ctx.prop(rep, "victim", ctx.tier.pick(40_000, 1_500_000), 200, victim_workload, run_c04b);
+    // very large writes against a reader that starts late: every write must still complete and every byte arrive
+    ctx.enumerate(rep, "progress-large-writes", LARGE_WRITE_LAG_CASES, 4, large_write_lag_case, |case| {
+        let mut o = run_c04a(case);
+        o.classes.push("writes-64KiB-to-3MiB-lagging-reader");
+        o.nontrivial = true;
+        o
+    });
     // progress through the bridge (the way every TCP entry point writes into a stream): a local side with data ready - up to
     // 64 MiB at once - and a peer application that keeps reading must see every byte and the end-of-stream
     let bridged_progress = |case: &Case| -> Outcome {
